@@ -6,6 +6,7 @@ import itertools
 
 from .. import astq
 from ..closure import node_classes
+from ..model import ClassRef
 from ..core import AnalysisError, Report
 from ..minieval import Interp, Obj, Raised
 from . import common
@@ -89,7 +90,7 @@ def r3(ctx, rep):
         def __getitem__(self, w):
             log.append(('R[w]', w))
             return set()
-    model = Obj('model', R=R(), sentences=set(), constants=set())
+    model = Obj('model', __srcclass__=(m, ClassRef('pytableaux.models', 'BaseModel')), R=R(), sentences=set(), constants=set())
     model._check_not_finished = lambda: None
     model.is_sentence_literal = lambda s: False
     model.is_sentence_opaque = lambda s: False
@@ -111,31 +112,51 @@ def r3(ctx, rep):
         rep.finding(R3, 'C02.R3/_read_node/compound', m.loc(MODELS, f_read), 'BaseModel._read_node',
                     'a compound sentence node does not register its world / constants / sentence')
     rb = m.func(MODELS, 'BaseModel.read_branch')
-    txt = astq.u(rb)
-    ok = 'for node in branch' in txt and 'read(node, branch)' in txt and 'self.finish()' in txt and \
-        txt.index('for node in branch') < txt.index('self.finish()')
-    rep.instance(R3, ok=ok, nontrivial='read_branch')
     rep.consult(m.loc(MODELS, rb) + ' BaseModel.read_branch')
+    # read_branch folded: every node of the branch is read (in order), then the model is finished, then nothing else
+    itr = Interp({}, where='BaseModel.read_branch')
+    log = []
+    mdl = Obj('model', __srcclass__=(m, ClassRef(MODELS, 'BaseModel')), _check_not_finished=lambda: None,
+              _read_node=lambda node, branch: log.append(('read', node, branch)), finish=lambda: log.append('finish'))
+    br = ['n1', 'n2', 'n3']
+    r = itr.safe(rb, [mdl, br])
+    ok = r is mdl and log == [('read', n, br) for n in br] + ['finish']
+    rep.instance(R3, ok=ok, nontrivial='read_branch')
     if not ok:
-        rep.finding(R3, 'C02.R3/read_branch', m.loc(MODELS, rb), 'BaseModel.read_branch', 'does not read every node and then finish()')
-    # Tableau.finish: models only if self.invalid; _gen_models iterates self.open
-    fin = m.func(TAB, 'Tableau.finish')
-    pm = astq.parent_map(fin)
-    gens = astq.find_calls(fin, 'self._gen_models')
-    astq.need(gens, 'Tableau.finish no longer calls _gen_models')
-    for c in gens:
-        g = {t for t, p in astq.guards_of(fin, astq.stmt_of(pm, c), pm) if p}
-        ok = any('self.invalid' in t for t in g)
-        rep.instance(R3, ok=ok, nontrivial='finish-models-iff-invalid')
+        rep.finding(R3, 'C02.R3/read_branch', m.loc(MODELS, rb), 'BaseModel.read_branch', f'does not read every node and then finish(): calls {log}, returns {r!r}')
+    # Tableau.finish builds models iff invalid and is_build_models (lifecycle fold); _gen_models folded: one model of the logic per open branch
+    from .. import lifecycle
+    res, cons = lifecycle.fold_finish(m)
+    rep.consult(*cons)
+    for ok, case, detail in res:
+        rep.instance(R3, ok=ok, nontrivial=('finish', case))
         if not ok:
-            rep.finding(R3, 'C02.R3/finish/models', m.loc(TAB, c), 'Tableau.finish', 'models are generated without the `self.invalid` guard')
+            rep.finding(R3, f'C02.R3/finish/{case}', cons[0].split(' ')[0], 'Tableau.finish', f'{case}: {detail}')
     gm = m.func(TAB, 'Tableau._gen_models')
-    txt = astq.u(gm)
-    ok = 'for branch in self.open' in txt and 'model.read_branch(branch)' in txt and 'Model = self.logic.Model' in txt
-    rep.instance(R3, ok=ok, nontrivial='_gen_models')
     rep.consult(m.loc(TAB, gm) + ' Tableau._gen_models')
+    made = []
+
+    class ModelM:
+        def __init__(self):
+            made.append(self)
+            self.read = []
+
+        def read_branch(self, branch):
+            self.read.append(branch)
+            return self
+    ob = [Obj('open-branch-1'), Obj('open-branch-2')]
+    tabm = Obj('tableau', __srcclass__=(m, ClassRef(TAB, 'Tableau')), logic=Obj('logic', Model=ModelM), open=ob, _check_timeout=lambda: None)
+    itg = Interp({}, where='Tableau._gen_models')
+    try:
+        got = itg.generate(gm, [tabm])
+        err = None
+    except Raised as e:
+        got, err = [], e.text
+    ok = err is None and got == made and len(made) == 2 and [x.read for x in made] == [[ob[0]], [ob[1]]] and all(getattr(b, 'model', None) is x for b, x in zip(ob, made))
+    rep.instance(R3, ok=ok, nontrivial='_gen_models')
     if not ok:
-        rep.finding(R3, 'C02.R3/_gen_models', m.loc(TAB, gm), 'Tableau._gen_models', 'does not read one model of the tableau\'s logic per open branch')
+        rep.finding(R3, 'C02.R3/_gen_models', m.loc(TAB, gm), 'Tableau._gen_models',
+                    f'does not read one model of the tableau\'s logic per open branch (and attach it to the branch): {err or [x.read for x in made]}')
     # is_countermodel_to folded
     ic = m.func(MODELS, 'BaseModel.is_countermodel_to')
     rep.consult(m.loc(MODELS, ic) + ' BaseModel.is_countermodel_to')
@@ -144,7 +165,7 @@ def r3(ctx, rep):
     for pv in itertools.product(('T', 'B', 'N', 'F'), repeat=2):
         for cv in ('T', 'B', 'N', 'F'):
             vals = {'p1': pv[0], 'p2': pv[1], 'c': cv}
-            mod = Obj('model', Meta=Obj('Meta', designated_values=D))
+            mod = Obj('model', __srcclass__=(m, ClassRef('pytableaux.models', 'BaseModel')), Meta=Obj('Meta', designated_values=D))
             mod.value_of = lambda s: vals[s]
             a = Obj('arg', premises=('p1', 'p2'), conclusion='c')
             got = bool(it2.safe(ic, [mod, a]))
